@@ -158,14 +158,15 @@ GROUPS["builtins"] = {
     "harness_file": "builtins_proofs.rs",
     "module": "builtins::__verif_k",
     "functions": ["builtins.rs: call, call_type, call_string, call_bool, call_int, call_float, call_length"],
-    "stubs": ["alloc::fmt::format -> empty String", "GC::trace -> no-op"],
+    "stubs": ["alloc::fmt::format -> empty String", "GC::trace -> no-op", "Object::tag -> its contract on float values, asserted on the raw word (c14_int_of_float_all_bits only)"],
     "harnesses": [
         H("c14_arity_0", ["C14", "C05"], bound="6 builtins x 0 arguments"),
         H("c14_arity_2", ["C14"], "thorough", 900, True, bound="6 builtins x 2 arbitrary immediates"),
         H("c14_arity_3", ["C14"], "thorough", 900, True, bound="6 builtins x 3 arbitrary immediates"),
         H("c14_bool", ["C14"], bound="any value of the 7 types (61-bit ints, all f64 bit patterns, literal-table text, lists <= 2)"),
         H("c14_int_float_of_immediates", ["C14"], "thorough", 900, True, bound="null, both booleans, all 2^61 ints, all function descriptors"),
-        H("c14_int_of_float", ["C14"], "thorough", 900, True, bound="all 2^64 float bit patterns"),
+        H("c14_int_of_float", ["C14"], "thorough", 900, True, bound="all 2^64 float bit patterns, real Object::tag (attempted: not decided in 900 s - the tag of a heap value is not folded, the text arm of call_int is explored)"),
+        H("c14_int_of_float_all_bits", ["C14", "C05"], timeout=300, bound="all 2^64 float bit patterns; Object::tag replaced by its contract on values made by Object::float (the stub asserts the tag bits on the raw word; the real tag is decided by c15_tag_of_every_shape)"),
         H("c14_type_names", ["C14"], timeout=300, bound="any value of the 7 types"),
         H("c14_lengte", ["C14"], "thorough", 600, True, bound="any value of the 7 types; text from the literal table (1- to 4-byte code points)"),
         H("c14_string_non_numeric", ["C14"], "thorough", 600, True, bound="null, bool, text, list, function"),
